@@ -11,7 +11,7 @@ import (
 
 func init() {
 	register("C17",
-		"Decides the structural premises of the ShardQueue hand-off in mux/shard_queue.go: the worker flushes after draining and before it gives up the run flag; after Store(runNum,0) its first action is to re-read the trigger counter and restart itself when it is positive (an Add that found the worker still running relies on that); triggering() starts the worker for the first pending trigger and foreach() starts at most one; the per-shard spin lock is released after every acquisition and every access to a shard's getter slice is under it; the shard handed to deal() is replaced by an empty slice; getters are invoked only by deal(), once per element; Add mutates only while state==active; Close returns nil only after observing trigger==0 or state==closed; the trigger ring index is written only under listLock. Not decided: the ring's w/r arithmetic under wrap-around, fairness of the runner.",
+		"Decides the structural premises of the ShardQueue hand-off in mux/shard_queue.go: the worker flushes after draining and before it gives up the run flag; after Store(runNum,0) its first action is to re-read the trigger counter and restart itself when it is positive (an Add that found the worker still running relies on that); triggering() starts the worker for the first pending trigger and foreach() starts at most one; the per-shard spin lock is released after every acquisition and every access to a shard's getter slice is under it; the shard handed to deal() is replaced by an empty slice; getters are invoked only by deal(), once per element; Add mutates only while state==active; Close returns nil only after observing trigger==0 or state==closed; the trigger ring index is written only under listLock. The trigger counter is decremented only after deal(); the drained shard gets the spare buffer as it was before the swap; deal() walks the whole batch; the shard index is the remainder of the unsigned counter value (F20). Not decided: the ring's w/r arithmetic under wrap-around, fairness of the runner.",
 		[]string{"sync/atomic is linearizable", "runner.RunTask eventually runs the task"},
 		func(r *Run) {
 			r.use("linux")
